@@ -16,6 +16,7 @@ from . import c02
 
 ID = "C14"
 LEVEL = "proof"
+STRENGTH = "partial"
 ENGINES = ["lean-model", "kopfsim"]
 TIE = "S: step refinement — each real processing cycle replayed through the Lean `C14.step` (memory flags, cause, gate, pass)"
 LEVEL_TEXT = ("Lean theorems over all event histories of one object in one process: resume_invoked_only_initial (never for a creation, "
